@@ -741,3 +741,43 @@ V('ck14-neutral-order', ['C20'], 'yalafi/shell/checks.py',
   "                        if m.group(0).isalpha() and not f(m))", "                        if not f(m) and m.group(0).isalpha())", [])
 V('ck15-joined', ['C20'], 'yalafi/shell/checks.py',
   "    hits = list((m.start(0), m.end(0))\n                    for pat in accept for m in re.finditer(pat, plain))", "    alt = '|'.join(accept)\n    hits = list((m.start(0), m.end(0))\n                    for m in re.finditer(alt, plain)) if alt else []", 'CK15')
+V('sb7-nostrip', ['C09', 'C19'], 'yalafi/handlers.py',
+  "    name = parser.get_text_direct(args[1]).strip()", "    name = parser.get_text_direct(args[1])", 'SB7')
+V('sb7-neutral-later', ['C09'], 'yalafi/handlers.py',
+  "    name = parser.get_text_direct(args[1]).strip()", "    name = parser.get_text_direct(args[1])\n    name = name.strip()", [])
+V('ix8-nolimit', ['C07'], 'yalafi/handlers.py',
+  "        nargs = int(nargs) if len(nargs) < 100 else 10", "        nargs = int(nargs)", 'IX8')
+V('ix8-neutral-limit', ['C07'], 'yalafi/handlers.py',
+  "        nargs = int(nargs) if len(nargs) < 100 else 10", "        nargs = 10 if len(nargs) >= 100 else int(nargs)", [])
+# ---- round 7 rules
+V('rx8-flag-as-count', ['C16'], 'yalafi/shell/genhtml.py',
+  "    return re.sub(r'((?:.|\\n)*?(?!\\Z)|(?:.|\\n)+?)(<br>\\n|\\Z)', f, s)", "    return re.sub(r'(.*?(?!\\Z)|.+?)(<br>\\n|\\Z)', f, s, re.DOTALL)", 'RX8')
+V('rx8-neutral-kw', ['C16'], 'yalafi/shell/genhtml.py',
+  "    return re.sub(r'((?:.|\\n)*?(?!\\Z)|(?:.|\\n)+?)(<br>\\n|\\Z)', f, s)", "    return re.sub(r'(.*?(?!\\Z)|.+?)(<br>\\n|\\Z)', f, s, flags=re.DOTALL)", [])
+V('tc1-isinstance', ['C19'], 'yalafi/packages/glossaries.py',
+  "type(t) is defs.TextToken", "isinstance(t, defs.TextToken)", 'TC1')
+V('sp6-at', ['C19'], 'yalafi/parameters.py',
+  "            '\\\\,': '\\N{NARROW NO-BREAK SPACE}',", "            '\\\\,': '\\N{NARROW NO-BREAK SPACE}',\n            '\\\\@': '',", 'SP6')
+V('ml11-soft-select', ['C12'], 'yalafi/packages/babel.py',
+  "    return [LanguageToken(pos, lang=lang, hard=True, brk=selectlang_break)]", "    return [LanguageToken(pos, lang=lang, brk=selectlang_break)]", 'ML11')
+VARIANTS.append(dict(id='lc5-stale-sep', props=['C13'], expect=['LC5'], edits=[
+  (U, "def replace_phrases(txt, pos, lines):\n    for lin in lines:\n", "def replace_phrases(txt, pos, lines):\n    s = ''\n    for lin in lines:\n"),
+  (U, "        t = s = ''", "        t = ''")]))
+V('pd7b-peek-pos', ['C04'], 'yalafi/packages/xspace.py',
+  "        return [defs.SpaceToken(pos, ' ')]", "        return [defs.SpaceToken(tok.pos, ' ')]", 'PD7b')
+V('sb8-early', ['C03', 'C09'], P,
+  "        name = tok.txt\n        args = []\n", "        name = tok.txt\n        if name in self.parms.newcommand_ignore:\n            return [defs.ActionToken(start)]\n        args = []\n", 'SB8')
+V('sb2c-nocopy', ['C10', 'C04'], P,
+  "                        arg = [copy.copy(t) for t in mac.defaults[n]]\n                        for t in arg:\n                            t.pos = start\n                            t.pos_fix = True", "                        arg = mac.defaults[n]", 'SB2c')
+V('tx4-crlf', ['C14'], 'yalafi/shell/server.py',
+  "        latex = requ['text'][0]", "        latex = requ['text'][0].replace('\\r\\n', '\\n')", 'TX4')
+V('nd1-set', ['C17'], T2,
+  "    for p in packs.split(','):", "    for p in set(packs.split(',')):", 'ND1')
+V('tj8-in-before-type', ['C15'], PR,
+  "        json_fatal('JSON root element')\n\n    def f(err):", "        json_fatal('JSON root element')\n    if 'response' in dic:\n        dic = json_get(dic, 'response', dict)\n\n    def f(err):", 'TJ8')
+V('ix20-third', ['C07'], U,
+  "                and not sections[1].back\n", "                and not sections[1].back\n                and not sections[2].brk\n", 'IX20')
+V('fd1-unchecked', ['C18'], 'yalafi/shell/shell.py',
+  "    tex = fp.read()\n", "    tex = fp.read()\n    tex = tex[:tex.find('\\\\end{document}')]\n", 'FD1')
+V('fd1-neutral-checked', ['C18'], 'yalafi/shell/shell.py',
+  "    tex = fp.read()\n", "    tex = fp.read()\n    end_doc = tex.find('\\\\end{document}')\n    if end_doc >= 0 and False:\n        tex = tex[:end_doc]\n", [])
